@@ -42,6 +42,9 @@ case "$cmd" in
         fi
         ZV_BINS="$bins" "$S/target/zv-gv/release/zv" "$id" "$@"
         ;;
+      C35)
+        VERIF_REPO="$S/repo" python3 "$S/engines/feat/run.py" C35 "$@"
+        ;;
       *)
         B="${ZB_BIN:-zb}"
         ( cd "$S/engines/zb" && cargo build --release --offline --bin "$B" 2>&1 | grep -E "^error" -A 12 || true )
